@@ -516,7 +516,26 @@ impl<'t> Gen<'t> {
             8 => {
                 let j = other(self);
                 if j != usize::MAX {
-                    self.bin(i, j, BinOp::Zip);
+                    if self.t.draw(3) == 2 {
+                        // zip straight after blocks with the same limited replication
+                        let k = 2 + self.t.draw(3) as u64;
+                        let a = self.unlimited(i);
+                        let b = self.unlimited(j);
+                        let a = self.un(a, UnOp::Repl(Repl::Limited(k)));
+                        let b = self.un(b, UnOp::Repl(Repl::Limited(k)));
+                        let aa = self.attrs[a].take().unwrap();
+                        let ab = self.attrs[b].take().unwrap();
+                        self.steps.push(Step::Bin(a, b, BinOp::Zip));
+                        self.attrs.push(Some(Attr {
+                            repl: Repl::One,
+                            depth: aa.depth.max(ab.depth),
+                            len: aa.len.min(ab.len),
+                            keys: aa.keys,
+                        }));
+                        self.nsteps += 1;
+                    } else {
+                        self.bin(i, j, BinOp::Zip);
+                    }
                 }
             }
             9 => {
